@@ -22,6 +22,11 @@ type pipeCtx struct {
 	env     []string
 	strj    map[string]string
 	runej   map[int32]string
+	// where each object item sits: (index into TableSpec.Rows or -1 for the
+	// header, cell index) -> object id; and the spec each id was made from
+	ids   map[[2]int]int
+	specs map[int]ItemSpec
+	at    *[2]int
 }
 
 // item: the Coq term (Model/Cell.v item) of one item as given to the library
@@ -45,8 +50,31 @@ func (pc *pipeCtx) item(it ItemSpec) string {
 	d := describe(v)
 	id := pc.nextObj
 	pc.nextObj++
+	if pc.at != nil && pc.ids != nil {
+		pc.ids[*pc.at] = id
+		pc.specs[id] = it
+	}
 	pc.env = append(pc.env, fmt.Sprintf("(%s, %s)", cqN(uint64(id)), d.Coq()))
 	return "(IObj " + cqN(uint64(id)) + ")"
+}
+
+// itemAt: as item, remembering the position of a top-level object item
+func (pc *pipeCtx) itemAt(row, col int, it ItemSpec) string {
+	k := [2]int{row, col}
+	if it.K == "obj" {
+		pc.at = &k
+	}
+	s := pc.item(it)
+	pc.at = nil
+	return s
+}
+
+func (pc *pipeCtx) itemsAt(row, base int, specs []ItemSpec) string {
+	xs := make([]string, len(specs))
+	for i := range specs {
+		xs[i] = pc.itemAt(row, base+i, specs[i])
+	}
+	return cqList(xs)
 }
 
 func (pc *pipeCtx) items(specs []ItemSpec) string {
@@ -96,12 +124,13 @@ func pipeHistory(ts TableSpec, pc *pipeCtx) (ops []string, ok bool) {
 	}
 	addHeader := func() {
 		if ts.Header != nil {
-			core("(AddHeaders " + pc.items(*ts.Header) + ")")
+			core("(AddHeaders " + pc.itemsAt(-1, 0, *ts.Header) + ")")
 		}
 	}
 	type pending struct {
-		row, left int
-		cells     []ItemSpec
+		row, left  int
+		cells      []ItemSpec
+		spec, base int
 	}
 	var late []pending
 	nrows := 0
@@ -110,8 +139,8 @@ func pipeHistory(ts TableSpec, pc *pipeCtx) (ops []string, ok bool) {
 		for _, p := range late {
 			if all || p.left <= 0 {
 				if p.row < nrows {
-					for _, it := range p.cells {
-						core(fmt.Sprintf("(RowAdd (RIdx %s) %s)", cqNat(p.row), pc.item(it)))
+					for j, it := range p.cells {
+						core(fmt.Sprintf("(RowAdd (RIdx %s) %s)", cqNat(p.row), pc.itemAt(p.spec, p.base+j, it)))
 					}
 				}
 			} else {
@@ -145,8 +174,8 @@ func pipeHistory(ts TableSpec, pc *pipeCtx) (ops []string, ok bool) {
 			} else {
 				core("(NewRowSizedFor " + cqNat(v) + ")")
 			}
-			for _, it := range r.Cells {
-				core(fmt.Sprintf("(RowAdd (RName %s) %s)", cqNat(v), pc.item(it)))
+			for j, it := range r.Cells {
+				core(fmt.Sprintf("(RowAdd (RName %s) %s)", cqNat(v), pc.itemAt(i, j, it)))
 			}
 			core("(AddRow " + cqNat(v) + ")")
 			nrows++
@@ -155,16 +184,16 @@ func pipeHistory(ts TableSpec, pc *pipeCtx) (ops []string, ok bool) {
 			nextVar++
 			core("(AppendNewRow " + cqNat(v) + ")")
 			nrows++
-			for _, it := range r.Cells {
-				core(fmt.Sprintf("(RowAdd (RName %s) %s)", cqNat(v), pc.item(it)))
+			for j, it := range r.Cells {
+				core(fmt.Sprintf("(RowAdd (RName %s) %s)", cqNat(v), pc.itemAt(i, j, it)))
 			}
 		default:
-			core("(AddRowItems " + pc.items(r.Cells) + ")")
+			core("(AddRowItems " + pc.itemsAt(i, 0, r.Cells) + ")")
 			nrows++
 		}
 		flush(false)
 		if len(r.Late) > 0 {
-			late = append(late, pending{nrows - 1, r.LateAfter, r.Late})
+			late = append(late, pending{nrows - 1, r.LateAfter, r.Late, i, len(r.Cells)})
 			flush(false)
 		}
 	}
@@ -173,7 +202,7 @@ func pipeHistory(ts TableSpec, pc *pipeCtx) (ops []string, ok bool) {
 		addHeader()
 	}
 	if ts.Header2 != nil {
-		core("(AddHeaders " + pc.items(*ts.Header2) + ")")
+		core("(AddHeaders " + pc.itemsAt(-1, 0, *ts.Header2) + ")")
 	}
 	setProps(ts.Align, ts.Skip)
 	for _, op := range ts.PropOps {
@@ -195,17 +224,10 @@ func pipeHistory(ts TableSpec, pc *pipeCtx) (ops []string, ok bool) {
 	return ops, true
 }
 
-// pipeCase: the Coq term of the pipeline case for a table built from ts, whose
-// real counterpart presented obs through the public API and rendered to csv
-// as csvOut.
-func pipeCase(ts TableSpec, obs View, csvOut Outcome) (string, bool) {
-	pc := &pipeCtx{strj: map[string]string{}, runej: map[int32]string{}}
-	ops, ok := pipeHistory(ts, pc)
-	if !ok {
-		return "", false
-	}
-	// display width of every line of every text the table shows (nested cells
-	// and objects show their texts through the outer cell)
+// oracleTerm: the oracles of one case (coq/Run/PipeRun.v pipe_oracle): display
+// width of every line of every text the table shows, the object descriptors,
+// encoding/json of the strings and runes.
+func (pc *pipeCtx) oracleTerm(obs View, seed uint64, extraTexts []string) string {
 	wk := map[string]int{}
 	addText := func(s string) {
 		for _, l := range strings.Split(s, "\n") {
@@ -225,6 +247,9 @@ func pipeCase(ts TableSpec, obs View, csvOut Outcome) (string, bool) {
 			each(*r)
 		}
 	}
+	for _, t := range extraTexts {
+		addText(t)
+	}
 	var keys []string
 	for k := range wk {
 		keys = append(keys, k)
@@ -236,7 +261,7 @@ func pipeCase(ts TableSpec, obs View, csvOut Outcome) (string, bool) {
 	}
 	// strings the table does not hold, for the encoder model alone (Model/JsonString.v):
 	// every class of byte encoding/json treats specially, and a few random byte strings
-	hr := NewRNG(uint64(len(ops))*1000003 + uint64(len(wk)) + uint64(len(csvOut.Out))*7919)
+	hr := NewRNG(seed)
 	if hr.Intn(24) == 0 {
 		for _, h := range pipeHostile {
 			b, _ := json.Marshal(h)
@@ -270,9 +295,87 @@ func pipeCase(ts TableSpec, obs View, csvOut Outcome) (string, bool) {
 	for i, k := range rk {
 		rj[i] = cqPair(cqZ(int64(k)), cqStr(pc.runej[int32(k)]))
 	}
-	oracle := fmt.Sprintf("(mkPO %s %s %s %s)", cqList(wt), cqList(pc.env), cqList(sj), cqList(rj))
+	return fmt.Sprintf("(mkPO %s %s %s %s)", cqList(wt), cqList(pc.env), cqList(sj), cqList(rj))
+}
+
+// pipeCase: the Coq term of the pipeline case for a table built from ts, whose
+// real counterpart presented obs through the public API and rendered to csv
+// as csvOut.
+func pipeCase(ts TableSpec, obs View, csvOut Outcome) (string, bool) {
+	pc := &pipeCtx{strj: map[string]string{}, runej: map[int32]string{}}
+	ops, ok := pipeHistory(ts, pc)
+	if !ok {
+		return "", false
+	}
+	oracle := pc.oracleTerm(obs, uint64(len(ops))*1000003+uint64(len(csvOut.Out))*7919+uint64(len(obs.Rows)), nil)
 	hist := "(fun (W : list N -> nat) (e : env) => " + cqList(ops) + ")"
 	return fmt.Sprintf("(%s, %s, %s, %s)", oracle, hist, obs.Coq(false), csvOut.Coq()), true
+}
+
+// pipeMutCase: a program that builds the table of ts on a REAL table of its
+// own, then changes some of its mutable items in place and asks some of the
+// cells holding them to Update (coq/Model/TableMut.v); the term of the case:
+// oracles, the program, and the view read back from that table at the end.
+func pipeMutCase(ts TableSpec, seed uint64) (string, bool) {
+	pc := &pipeCtx{strj: map[string]string{}, runej: map[int32]string{}, ids: map[[2]int]int{}, specs: map[int]ItemSpec{}}
+	plain := ts
+	plain.Mutations = nil
+	ops, ok := pipeHistory(plain, pc)
+	if !ok || len(pc.ids) == 0 {
+		return "", false
+	}
+	t := tabular.New()
+	objs := plain.buildStaged(t, nil)
+	var cands [][2]int
+	for k := range pc.ids {
+		if objs[k] != nil {
+			cands = append(cands, k)
+		}
+	}
+	if len(cands) == 0 {
+		return "", false
+	}
+	sort.Slice(cands, func(i, j int) bool {
+		return cands[i][0] < cands[j][0] || (cands[i][0] == cands[j][0] && cands[i][1] < cands[j][1])
+	})
+	r := NewRNG(seed)
+	mops := make([]string, len(ops))
+	for i, o := range ops {
+		mops[i] = "MOp (" + o + ")"
+	}
+	var texts []string
+	steps := 1 + r.Intn(4)
+	for s := 0; s < steps; s++ {
+		k := cands[r.Intn(len(cands))]
+		id := pc.ids[k]
+		sp := pc.specs[id]
+		nw := pick(r, []string{"", "M", "changed", "two\nlines", "wide \u65e5\u672c", "q\"<&", "  padded  ", string(sp.S) + "+"})
+		sp.S = []byte(nw)
+		pc.specs[id] = sp
+		objs[k].s = nw // the caller changes the item in place
+		v, _ := sp.Make()
+		mops = append(mops, fmt.Sprintf("MMutate %s %s", cqN(uint64(id)), describe(v).Coq()))
+		texts = append(texts, nw, describe(v).V)
+		if r.Intn(2) == 0 {
+			continue // not updated: the cell must keep showing what it cached
+		}
+		if k[0] < 0 {
+			if h := t.Headers(); k[1] < len(h) {
+				h[k[1]].Update()
+				mops = append(mops, "MUpdateHeader "+cqNat(k[1]))
+			}
+		} else {
+			row := plain.tableRow(k[0])
+			if c, err := t.CellAt(tabular.CellLocation{Row: row + 1, Column: k[1] + 1}); err == nil {
+				c.Update()
+				mops = append(mops, fmt.Sprintf("MUpdateAt %s %s", cqNat(row), cqNat(k[1])))
+			}
+		}
+	}
+	obs := extractView(t)
+	oracle := pc.oracleTerm(obs, seed+17, texts)
+	hist := "(fun (W : list N -> nat) (e : env) => " + cqList(mops) + ")"
+	return fmt.Sprintf("(%s, %s, %s)", oracle, hist, obs.Coq(false)), true
 }
 
 var _ = tabular.New
